@@ -8,6 +8,8 @@ open CalmVerif.Props.C13
 #print axioms p_error_comments_transparent
 #print axioms lr_run_comments_transparent
 #print axioms comments_transparent_partial
+#print axioms actions_transparent
+#print axioms comments_transparent
 #print axioms comments_faithful_lexer
 #print axioms hidden_from_init
 #print axioms comment_ok_verbatim
@@ -17,6 +19,8 @@ open CalmVerif.Props.C13
 #print axioms line_comment_followed_by_newline
 #print axioms comment_carriers_print_comments_partial
 #print axioms case_block_drops_comments
+#print axioms restricted_production_split_witness
+#print axioms case_block_comment_not_printed_witness
 
 #check @token_comments_transparent
 #check @auto_semi_comments_transparent
@@ -25,6 +29,8 @@ open CalmVerif.Props.C13
 #check @p_error_comments_transparent
 #check @lr_run_comments_transparent
 #check @comments_transparent_partial
+#check @actions_transparent
+#check @comments_transparent
 #check @comments_faithful_lexer
 #check @hidden_from_init
 #check @comment_ok_verbatim
@@ -34,3 +40,5 @@ open CalmVerif.Props.C13
 #check @line_comment_followed_by_newline
 #check @comment_carriers_print_comments_partial
 #check @case_block_drops_comments
+#check @restricted_production_split_witness
+#check @case_block_comment_not_printed_witness
